@@ -1250,7 +1250,13 @@ func (ctx drawContext) drawLine(x1, y1, x2, y2, thickness pr.Fl, style pr.String
 				ctx.dst.CubicTo(x+radius/2, y1+up*radius,
 					x+3*radius/2, y1+up*radius,
 					x+2*radius, y1)
-				x += 2 * radius
+				next := x + 2*radius
+				if next <= x {
+					// the half period is below the precision of x (float32):
+					// the wave can't be drawn and the loop would never end
+					break
+				}
+				x = next
 				up *= -1
 			}
 		} else {
